@@ -139,6 +139,10 @@ pub fn exec(case: &[i64]) -> Outcome {
         _ => serde_json::json!({"kty": "OKP", "crv": "X25519", "x": "hSDwCYkwp1R0i33ctD73Wg2_Og0mOBr066SpjqqbTmo"}),
       };
       let mut jwk_json = jwk_json;
+      // optional members (key / 10 is a bit mask): the method must carry EXACTLY the key encoded in the DID, optional members included
+      let opt = key / 10;
+      for (bit, name, val) in [(0, "use", serde_json::json!("sig")), (1, "key_ops", serde_json::json!(["verify"])), (2, "alg", serde_json::json!("EdDSA")), (3, "kid", serde_json::json!("key-1")),
+        (4, "x5u", serde_json::json!("https://example.com/cert.pem")), (5, "x5c", serde_json::json!(["MIIB"])), (6, "x5t", serde_json::json!("dGh1bWI")), (7, "x5t#S256", serde_json::json!("dGh1bWIyNTY"))] { if opt >> bit & 1 == 1 { jwk_json[name] = val; } }
       if kind == 4 { jwk_json["d"] = serde_json::json!("nWGxne_9WmC6hEr0kuwsxERJxWl7MmkZcDusAxyuf2A"); }
       let did = format!("did:jwk:{}", identity_jose::jwu::encode_b64(serde_json::to_vec(&jwk_json).unwrap()));
       let mut r = SingleThreadedResolver::<CoreDocument>::new(); r.attach_did_jwk_handler();
@@ -193,4 +197,7 @@ pub fn gen(rng: &mut Rng, thorough: bool, sink: &mut Sink) {
   if thorough { for _ in 0..300 { let t = &tables[3]; let n = 6; let l: Vec<(i64, i64)> = (0..n).map(|k| (1 + k % 3, 1 + k / 3)).collect(); let mut p: Vec<usize> = (0..n as usize).collect(); for i in (1..p.len()).rev() { let j = rng.below(i as u64 + 1) as usize; p.swap(i, j); }
     let mut c = head(2, t); c.push(n); for d in &l { c.extend([d.0, d.1, rng.chance(9, 10) as i64]); } c.push(n); for k in &p { c.extend([l[*k].0, l[*k].1]); } sink.case(c, "multi-random-6"); } }
   for key in 0..4 { sink.case(vec![3, 0, 9, key], "did-jwk"); sink.case(vec![4, 0, 9, key], "did-jwk-private"); }
+  // every single optional member, all of them, and random subsets, on every key type
+  for key in 0..4 { for opt in (0..8).map(|b| 1i64 << b).chain([255, 15, 240]) { sink.case(vec![3, 0, 9, key + 10 * opt], "did-jwk-optional-members"); sink.case(vec![4, 0, 9, key + 10 * opt], "did-jwk-private"); }
+    for _ in 0..(if thorough { 60 } else { 8 }) { sink.case(vec![3, 0, 9, key + 10 * rng.range(1, 254)], "did-jwk-optional-members"); } }
 }
